@@ -161,6 +161,10 @@ def one_schedule(n_callers, plan, chooser, seed, lines=True):
             while to_send:
                 s._yield(("peer.wait",), cond=lambda: bool(sendable()))
                 item = sendable()[0]
+                if plan.get("hold") and item[0] == plan["hold"] - 1 and not state.get("held"):
+                    # this caller's answer is held back until nothing else in the system can move (a slow peer)
+                    state["held"] = True
+                    s._yield(("peer.hold",), cond=lambda: False, timeout=10 ** 6)
                 to_send.remove(item)
                 i, k = item
                 hbh = reqs[i].header.hop_by_hop if i is not None else (9000 + k).to_bytes(4, "big")
@@ -270,6 +274,7 @@ def explore(chk, rng, n_random, n_dfs, tag):
 
     def record(res, n_callers, plan, how, seed=1):
         inp = {"op": "rendezvous", "callers": n_callers, "answers_per_caller": plan["answers"], "stray_answers": plan["stray"], "how": how,
+               "held_back_caller": plan.get("hold", 0),
                "seed": seed, "schedule_len": len(res["schedule"])}
         chk.case(dict(inp, schedule=res["schedule"][:400]), kind="%s:%dcallers:%s" % (how, n_callers, tag))
         v = verdict(res, n_callers, plan)
@@ -279,7 +284,8 @@ def explore(chk, rng, n_random, n_dfs, tag):
         meta.append((inp, res, n_callers))
 
     # systematic: one caller / one answer, and two callers, depth-first over schedules (bounded), sync-operation granularity
-    for n_callers, plan in ((1, {"answers": [1], "stray": 0}), (2, {"answers": [1, 1], "stray": 0}), (1, {"answers": [2], "stray": 1})):
+    for n_callers, plan in ((1, {"answers": [1], "stray": 0}), (2, {"answers": [1, 1], "stray": 0}), (1, {"answers": [2], "stray": 1}),
+                            (2, {"answers": [1, 1], "stray": 0, "hold": 1})):
         def run_one(prefix, n_callers=n_callers, plan=plan):
             res = one_schedule(n_callers, plan, simlib.replay_chooser(prefix), seed=1, lines=False)
             return res["fanout"], res
@@ -295,7 +301,8 @@ def explore(chk, rng, n_random, n_dfs, tag):
         if chk.saturated():
             break
         n_callers = rng.choice([1, 2, 3, 4])
-        plan = {"answers": [rng.choice([1, 1, 1, 2]) for _ in range(n_callers)], "stray": rng.choice([0, 0, 1])}
+        plan = {"answers": [rng.choice([1, 1, 1, 2]) for _ in range(n_callers)], "stray": rng.choice([0, 0, 1]),
+                "hold": rng.choice([0, 0, 1, n_callers])}
         seed = rng.randrange(2 ** 30)
         how = rng.choice(["random", "pct", "random-lines"])
         chooser = simlib.pct_chooser(random.Random(seed), 3, 300) if how == "pct" else None
@@ -349,7 +356,7 @@ def replay(path):
         print(json.dumps(r.get("broken_theorems") or r.get("correspondence_breaks"), indent=1, default=str)[:3000])
         return 0
     i = v["input"]
-    plan = {"answers": i["answers_per_caller"], "stray": i["stray_answers"]}
+    plan = {"answers": i["answers_per_caller"], "stray": i["stray_answers"], "hold": i.get("held_back_caller", 0)}
     res = one_schedule(i["callers"], plan, simlib.replay_chooser(i["schedule"]), i.get("seed", 1), lines=(i["how"] not in ("dfs", "random")))
     now = verdict(res, i["callers"], plan)
     print("scenario: %d caller(s), answers %s, %d stray, schedule of %d choices (%s)" % (i["callers"], plan["answers"], plan["stray"], len(i["schedule"]), i["how"]))
